@@ -634,8 +634,18 @@ class ITerm2Image(GraphicsImage, metaclass=ITerm2ImageMeta):
                     compressed_image = open(img.filename, "rb")
                 else:
                     compressed_image = io.BytesIO()
+                    save_args = {}
+                    if img.format == "GIF":
+                        # The frame disposal methods are not carried along, though the
+                        # frames are only reproduced with them (e.g. with transparency)
+                        save_args["disposal"] = disposal = []
+                        for frame_no in range(img.n_frames):
+                            img.seek(frame_no)
+                            disposal.append(getattr(img, "disposal_method", 0))
                     try:
-                        img.save(compressed_image, img.format, save_all=True)
+                        img.save(
+                            compressed_image, img.format, save_all=True, **save_args
+                        )
                     except ValueError as e:
                         self._close_image(img)
                         raise RenderError(
